@@ -1211,5 +1211,20 @@ prop(dict(
 ))
 
 
+prop(dict(
+    id="G03", fam="G03",
+    gen=[("AnnexBGen.tla", "AnnexBGen.cfg", {"thorough": {"MaxLen": "10"}})],
+    trace=("AnnexBTrace.tla", "AnnexBTrace.cfg"),
+    shards={"quick": 4, "thorough": 14},
+    nontrivial=lambda c: len(c["bytes"]) >= 4,
+    class_of=lambda c: c["class"],
+    exhaustive=True,
+    rule="GROWTH: EVERY string over the alphabet {00, 01, 03, 65} up to length 7 (thorough: 10) handed to H264Payloader (no STAP-A) and H265Payloader (no aggregation) with MTU 65535; "
+         "the units that come back are compared with the Annex B byte-stream grammar of AnnexB.tla (conformant streams: exact units; any string: no panic); non-trivial = at least 4 bytes",
+    assumptions=COMMON_ASSUME + ["not one of the listed properties: findings are reported in DESIGN.md 9.7, never as a listed property's violation",
+                                 "H265 needs two header bytes: units shorter than that are outside its domain and are only judged for panics"],
+))
+
+
 for _id in ("C02", "C03", "C08", "C09", "C10", "C14"):
     PROPS[_id]["rule"] += CORPUS_RULE
